@@ -86,6 +86,8 @@ def run(chk: core.Check, tier: str, seed: int) -> None:
     for label, res in uruns:
         chk.add_tlc(label, res)
     uacc = [core.dec_text(g["q"]) for g in ugens if g["rfc"] != "reject"]
+    # ... and the specification's own canonical text of each of them (Unparse.tla, T2 checked by TLC in the same run)
+    uacc += [core.dec_text(g["canon"]) for g in ugens if g.get("canon")]
     chk.notes["unit_texts_valid"] = len(uacc)
     cands = list(dict.fromkeys(cands + dl + uacc))
     recs = [impl.rec_compile(jp, q, env=(fresh if k % 7 == 0 else None)) for k, q in enumerate(cands)]
